@@ -76,6 +76,18 @@ Theorem C19_weak_rev : forall (net : list rxn) (iso : list str) (r : nat),
 Proof. exact net_weak_rev. Qed.
 Print Assumptions C19_weak_rev.
 
+(** (3b) the same in terms of the reactions: weakly reversible iff for every reaction y -> y' (y, y' the numbers of its reactant
+         and product complexes) the complex graph has a directed path y' -> ... -> y. *)
+Theorem C19_weak_rev_reactions : forall (net : list rxn) (iso : list str) (r : nat), NoDup (map rid net) ->
+  let cs := fst (complex_graph net iso) in
+  let arcs := snd (complex_graph net iso) in
+  (weakly_rev (compute_summary net iso r) = true <->
+   forall e u v, In e net ->
+     nth_error cs u = Some (side_vec net iso (rlhs e)) -> nth_error cs v = Some (side_vec net iso (rrhs e)) ->
+     dpath arcs v u).
+Proof. exact net_weak_rev_reactions. Qed.
+Print Assumptions C19_weak_rev_reactions.
+
 (** (4a) the reported deficiency is n - l - r for the rank r handed to the summary. *)
 Theorem C19_deficiency_formula : forall net iso r,
   let s := compute_summary net iso r in
